@@ -4,8 +4,8 @@ from common import *
 import decl, gen, pktcases, pktprops
 
 PID = 'C12'
-TARGETS = ['Properties/C12.vo', 'Bridge/ErrorsBridge.vo', 'Bridge/CodegenBridge.vo']
-KERNELS = ['G9_errors', 'G11_codegen']
+TARGETS = ['Properties/C12.vo', 'Bridge/ErrorsBridge.vo', 'Bridge/CodegenBridge.vo', 'Bridge/PlumbingBridge.vo']
+KERNELS = ['G9_errors', 'G11_codegen', 'G17_builder']
 PROP_FILE = 'Properties/C12.v'
 
 
